@@ -193,6 +193,11 @@ impl Matcher for MultiExecMatcher {
                 matcher_io.set_exit_code(1);
             }
         }
+        if self.exec_in_parent_dir && file_info.path().parent().is_none() {
+            // finished_dir() is never called for a path without a parent: its batch is
+            // dispatched by finished(), from the root as above.
+            command.current_dir(file_info.path());
+        }
         true
     }
 
@@ -208,12 +213,12 @@ impl Matcher for MultiExecMatcher {
     }
 
     fn finished(&self, matcher_io: &mut MatcherIO) {
-        // Dispatch command for -exec.
-        if !self.exec_in_parent_dir {
-            let mut command = self.command.borrow_mut();
-            if let Some(mut command) = command.take() {
-                self.run_command(&mut command, matcher_io);
-            }
+        // Dispatch what is still pending: the command for -exec and, for -execdir,
+        // the batch of an entry without a parent directory (the starting point "/"),
+        // for which finished_dir() is never called.
+        let mut command = self.command.borrow_mut();
+        if let Some(mut command) = command.take() {
+            self.run_command(&mut command, matcher_io);
         }
     }
 
